@@ -77,6 +77,33 @@ pub fn canon(env: &Env, p: Prof, s: &str) -> Expect {
 }
 
 pub fn check_pair(p: Prof, a: &str, b: &str, ca: &Expect, cb: &Expect, st: &mut Stats) -> OutB {
+    check_pair_with(p, a, b, ca, cb, &|| Case::new("compare").s(a).s(b).x(json!(p.name())), st)
+}
+
+/// Aliased operands: both operands are slices `w[i1..j1]` and `w[i2..j2]` of ONE buffer (a field and
+/// a prefix of the same protocol line, a name and a longer name that starts with it). The answer
+/// must be the one the same contents give in separate allocations.
+pub fn check_aliased(env: &Env, p: Prof, w: &str, st: &mut Stats) {
+    let mut cuts: Vec<usize> = w.char_indices().map(|(i, _)| i).collect();
+    cuts.push(w.len());
+    let mut subs: Vec<(usize, usize)> = Vec::new();
+    for (x, &i) in cuts.iter().enumerate() {
+        for &j in &cuts[x..] {
+            subs.push((i, j));
+        }
+    }
+    let canons: Vec<Expect> = subs.iter().map(|&(i, j)| canon(env, p, &w[i..j])).collect();
+    for (x, &(i1, j1)) in subs.iter().enumerate() {
+        for (y, &(i2, j2)) in subs.iter().enumerate() {
+            st.transitions += 1;
+            let mk = || Case::new("compare_aliased").s(w).n(i1 as u64).n(j1 as u64).n(i2 as u64).n(j2 as u64).x(json!(p.name()));
+            check_pair_with(p, &w[i1..j1], &w[i2..j2], &canons[x], &canons[y], &mk, st);
+        }
+    }
+    st.count("out:aliased-operands");
+}
+
+pub fn check_pair_with(p: Prof, a: &str, b: &str, ca: &Expect, cb: &Expect, mk: &dyn Fn() -> Case, st: &mut Stats) -> OutB {
     let got = compare(p, a, b);
     st.evaluations += 1;
     st.traces += 1;
@@ -90,12 +117,7 @@ pub fn check_pair(p: Prof, a: &str, b: &str, ca: &Expect, cb: &Expect, st: &mut 
             (OutB::Ok(false), _) => "wrong_different",
             _ => "compare",
         };
-        st.violation(
-            kind,
-            || Case::new("compare").s(a).s(b).x(json!(p.name())),
-            exp.iter().map(show_outb).collect::<Vec<_>>().join(" or "),
-            show_outb(&got),
-        );
+        st.violation(kind, mk, exp.iter().map(show_outb).collect::<Vec<_>>().join(" or "), show_outb(&got));
     }
     got
 }
@@ -184,6 +206,19 @@ pub fn run(env: &Env, run: &Run) -> (Stats, Coverage) {
         for s in shards {
             st.merge(s);
         }
+        // aliasing layer: all pairs of sub-slices of each string, presented as slices of one buffer
+        let shards: Vec<Stats> = strs
+            .par_iter()
+            .map(|w| {
+                let mut st = Stats::default();
+                st.states += 1;
+                check_aliased(env, p, w, &mut st);
+                st
+            })
+            .collect();
+        for s in shards {
+            st.merge(s);
+        }
         // equivalence laws, checked directly on the implementation's answers
         let m = strs.len().min(run.tier.pick(150, 400));
         let matrix: Vec<Vec<OutB>> = (0..m)
@@ -231,7 +266,7 @@ pub fn run(env: &Env, run: &Run) -> (Stats, Coverage) {
     st.sample(json!({"profile": "UsernameCaseMapped", "a": ["U+0009"], "b": ["U+0378"], "expected": "Err(BadCodepoint{0x9,0,Disallowed}) - the first operand's error"}));
     st.sample(json!({"profile": "OpaqueString", "a": ["e", "U+0301"], "b": ["U+00E9"], "expected": "Ok(true)"}));
     let cov = Coverage {
-        rule: format!("all ordered pairs of the {} strings of length <= {} over 25 symbols (plus all strings one longer over the first 12 (quick) / 8 (thorough) interaction symbols) (case, width, spacing, canonical and compatibility variants of the same names, invalid strings) x 4 profiles, plus all ordered pairs of a, A, U+00E9, U+65E5 each repeated k times for k around 2^7, 2^8, 2^9, 2^10, 2^16 (length layer); oracle: usernames/OpaqueString = the implementation's own enforce on each operand (first operand's error first), Nickname = reference comparison pipeline (validate, space rule, lowercase, NFKC, iterated per RFC 8264 s.7); reflexivity/symmetry/transitivity checked directly on the first {} strings (all triples); non-trivial = distinct strings that compare equal", strs.len(), n, strs.len().min(run.tier.pick(150, 400))),
+        rule: format!("all ordered pairs of the {} strings of length <= {} over 25 symbols (plus all strings one longer over the first 12 (quick) / 8 (thorough) interaction symbols) (case, width, spacing, canonical and compatibility variants of the same names, invalid strings) x 4 profiles, plus all ordered pairs of a, A, U+00E9, U+65E5 each repeated k times for k around 2^7, 2^8, 2^9, 2^10, 2^16 (length layer), plus, for every string, all ordered pairs of its sub-slices presented as two slices of ONE buffer (aliased operands: shared start, shared end, overlapping, identical); oracle: usernames/OpaqueString = the implementation's own enforce on each operand (first operand's error first), Nickname = reference comparison pipeline (validate, space rule, lowercase, NFKC, iterated per RFC 8264 s.7); reflexivity/symmetry/transitivity checked directly on the first {} strings (all triples); non-trivial = distinct strings that compare equal", strs.len(), n, strs.len().min(run.tier.pick(150, 400))),
         alphabet: json!(sigma.iter().map(|c| format!("U+{:04X}", *c as u32)).collect::<Vec<_>>()),
         bound_completed: format!("{} strings, {} ordered pairs x 4 profiles", strs.len(), strs.len() * strs.len()),
         exhaustive: false,
@@ -251,6 +286,12 @@ pub fn replay(env: &Env, case: &Case) -> Vec<Violation> {
         "compare" => {
             let (a, b) = (case.str_at(0), case.str_at(1));
             check_pair(p, &a, &b, &canon(env, p, &a), &canon(env, p, &b), &mut st);
+        }
+        "compare_aliased" if case.nums.len() == 4 => {
+            let w = case.str_at(0);
+            let mut all = Stats::default();
+            check_aliased(env, p, &w, &mut all);
+            st.violations = all.violations.into_iter().filter(|v| v.case.nums == case.nums).collect();
         }
         "laws" => {
             let (a, b) = (case.str_at(0), case.str_at(1));
